@@ -140,26 +140,15 @@ func runC07(p *core.Prog, r *core.Report) {
 func c07R8(p *core.Prog, r *core.Report) {
 	const rule = "C07.R8"
 	r.Rule(rule, "an index that parses is never discarded: while the index updater answers a failed read of index.json by writing a fresh index, the reader has no failing return after its JSON decode succeeded (a content check added there turns one foreign entry into the loss of every tag at the next write)", 1)
-	upd := p.Method(ocidirRel, "OCIDir", "updateIndex")
 	rd := p.Method(ocidirRel, "OCIDir", "readIndex")
 	wr := p.Method(ocidirRel, "OCIDir", "writeIndex")
-	if upd == nil || rd == nil || wr == nil {
-		r.MissingAnchor(rule, ocidirRel+" updateIndex / readIndex / writeIndex")
+	if rd == nil || wr == nil {
+		r.MissingAnchor(rule, ocidirRel+" readIndex / writeIndex")
 		return
 	}
-	replaces := false
-	for _, c := range core.CallsTo(upd, func(f *types.Func) bool { return funcObjIs(p, f, rd) }) {
-		call, ok := c.(*ssa.Call)
-		if !ok {
-			continue
-		}
-		for _, e := range errEdgesOf(upd, call) {
-			for in := range (core.Reach{}).FromEdge(e[0], e[1]) {
-				if cc, ok := in.(ssa.CallInstruction); ok && core.CalleeFn(cc) == wr {
-					replaces = true
-				}
-			}
-		}
+	upd, replaces := indexUpdater(p)
+	if upd == nil {
+		upd = rd
 	}
 	if !replaces {
 		r.Held(rule, p.FuncName(upd), "index read failure", p.Pos(upd.Pos()), "the updater does not write an index after a failed read: nothing is replaced")
@@ -203,13 +192,27 @@ func c07R8(p *core.Prog, r *core.Report) {
 		}
 		return false
 	}
+	// … or is handed the index behind an `any` (a shared "decode this JSON file into v" helper)
+	passesIndex := func(call *ssa.Call) bool {
+		for _, a := range call.Call.Args {
+			v := underIface(a)
+			t := v.Type()
+			if pt, ok := t.(*types.Pointer); ok {
+				t = pt.Elem()
+			}
+			if types.Identical(t, idxT) {
+				return true
+			}
+		}
+		return false
+	}
 	var dec []*ssa.Call
 	core.Calls(rd, func(c ssa.CallInstruction) {
 		call, ok := c.(*ssa.Call)
 		if !ok {
 			return
 		}
-		if isJSON(core.Callee(c)) || (decodes(core.CalleeFn(c), 1) && carriesIndex(core.CalleeFn(c))) {
+		if isJSON(core.Callee(c)) || (decodes(core.CalleeFn(c), 1) && (carriesIndex(core.CalleeFn(c)) || passesIndex(call))) {
 			dec = append(dec, call)
 		}
 	})
@@ -902,19 +905,23 @@ func c07R2(p *core.Prog, r *core.Report) {
 func c07R3(p *core.Prog, r *core.Report, rule string) {
 	r.Rule(rule, "order between files: manifest file renamed into place before the index mentions it; on delete the index is rewritten before the file is removed", 2)
 	// (a) functions that rename a file and call updateIndex: rename dominates, and updateIndex only on rename success
-	upd := p.Method(ocidirRel, "OCIDir", "updateIndex")
+	upd := p.Method(ocidirRel, "OCIDir", "updateIndex") // may have been inlined into its caller: the write itself is the event then
 	wri := p.Method(ocidirRel, "OCIDir", "writeIndex")
-	if upd == nil || wri == nil {
-		r.MissingAnchor(rule, ocidirRel+".(*OCIDir).updateIndex / writeIndex")
+	if wri == nil {
+		r.MissingAnchor(rule, ocidirRel+".(*OCIDir).writeIndex")
 		return
 	}
 	found := 0
 	// helpers: functions of the package that rename (or remove) a content file themselves and do not
 	// touch the index; a call of one counts as the rename (removal) at the call site
-	reachesIndex := reachers(p, map[*ssa.Function]bool{upd: true, wri: true})
+	idxTargets := map[*ssa.Function]bool{wri: true}
+	if upd != nil {
+		idxTargets[upd] = true
+	}
+	reachesIndex := reachers(p, idxTargets)
 	renamers, removers := map[*ssa.Function]bool{}, map[*ssa.Function]bool{}
 	for _, fn := range pkgFuncs(p, ocidirRel) {
-		if fn == upd || fn == wri || reachesIndex[fn] || fn.Parent() != nil {
+		if idxTargets[fn] || reachesIndex[fn] || fn.Parent() != nil {
 			continue
 		}
 		if len(core.CallsTo(fn, func(f *types.Func) bool { return isOS(f, "Rename") })) > 0 {
@@ -925,7 +932,7 @@ func c07R3(p *core.Prog, r *core.Report, rule string) {
 		}
 	}
 	for _, fn := range pkgFuncs(p, ocidirRel) {
-		if fn == upd || fn == wri {
+		if idxTargets[fn] {
 			continue
 		}
 		fname := p.FuncName(fn)
@@ -934,7 +941,7 @@ func c07R3(p *core.Prog, r *core.Report, rule string) {
 			g := core.CalleeFn(c)
 			cal := core.Callee(c)
 			switch {
-			case g == upd || g == wri:
+			case g != nil && idxTargets[g]:
 				idxCalls = append(idxCalls, c)
 			case isOS(cal, "Rename") || (g != nil && renamers[g]):
 				renames = append(renames, c)
@@ -1140,27 +1147,16 @@ func c07R4(p *core.Prog, r *core.Report) {
 func c07R6(p *core.Prog, r *core.Report) {
 	const rule = "C07.R6"
 	r.Rule(rule, "marker without index is recoverable: either every function that creates the layout marker (oci-layout) writes the index before it, or the index updater still reaches its index write from the failure edge of reading the index (a crash between the two renames must not leave a layout that every later write refuses)", 1)
-	upd := p.Method(ocidirRel, "OCIDir", "updateIndex")
 	rd := p.Method(ocidirRel, "OCIDir", "readIndex")
 	wr := p.Method(ocidirRel, "OCIDir", "writeIndex")
-	if upd == nil || rd == nil || wr == nil {
-		r.MissingAnchor(rule, ocidirRel+" updateIndex / readIndex / writeIndex")
+	if rd == nil || wr == nil {
+		r.MissingAnchor(rule, ocidirRel+" readIndex / writeIndex")
 		return
 	}
 	// (B) the updater recovers
-	recovers := false
-	for _, c := range core.CallsTo(upd, func(f *types.Func) bool { return funcObjIs(p, f, rd) }) {
-		call, ok := c.(*ssa.Call)
-		if !ok {
-			continue
-		}
-		for _, e := range errEdgesOf(upd, call) {
-			for in := range (core.Reach{}).FromEdge(e[0], e[1]) {
-				if cc, ok := in.(ssa.CallInstruction); ok && core.CalleeFn(cc) == wr {
-					recovers = true
-				}
-			}
-		}
+	upd, recovers := indexUpdater(p)
+	if upd == nil {
+		upd = rd
 	}
 	// (A) index before marker in every creator of the marker
 	markerWriters := map[*ssa.Function]bool{}
@@ -1201,4 +1197,38 @@ func c07R6(p *core.Prog, r *core.Report) {
 
 func funcObjIs(p *core.Prog, f *types.Func, fn *ssa.Function) bool {
 	return f != nil && fn != nil && p.SSA.FuncValue(f) == fn
+}
+
+// indexUpdater finds, by what it does, the function of the layout scheme that writes the index after
+// it failed to read it (today updateIndex; its body may live in its caller): a call of an index reader
+// from whose failure edge a call of the index writer is reachable. ok=false when no function does.
+func indexUpdater(p *core.Prog) (fn *ssa.Function, ok bool) {
+	wr := p.Method(ocidirRel, "OCIDir", "writeIndex")
+	rds := roleSet(p, ocidirRel, "OCIDir", "readIndex")
+	if wr == nil || len(rds) == 0 {
+		return nil, false
+	}
+	for _, f := range pkgFuncs(p, ocidirRel) {
+		if rds[f] || f == wr {
+			continue
+		}
+		found := false
+		core.Calls(f, func(c ssa.CallInstruction) {
+			call, isCall := c.(*ssa.Call)
+			if g := core.CalleeFn(c); !isCall || g == nil || !rds[g] {
+				return
+			}
+			for _, e := range errEdgesOf(f, call) {
+				for in := range (core.Reach{}).FromEdge(e[0], e[1]) {
+					if cc, isC := in.(ssa.CallInstruction); isC && core.CalleeFn(cc) == wr {
+						found = true
+					}
+				}
+			}
+		})
+		if found {
+			return f, true
+		}
+	}
+	return p.Method(ocidirRel, "OCIDir", "updateIndex"), false
 }
